@@ -102,11 +102,17 @@ def trio_swap(ck, prog, kinds, oi, ai):
         st = p.extra['st']; f, at, ab = st['f'], st['at'], st['ab']
         eff = effects(resp_of(p), TRIO); A = tname(kinds, ai)
         nf = tledger_after(p, 'collected_protocol_fees'); nat = tledger_after(p, 'all_time_collected_protocol_fees'); nab = tledger_after(p, 'all_time_burned_fees')
-        ck.oblige('C07.trio.swap.ledger.' + tag, p, z3.Or(nf[ai] != f[ai] + prot, nf[oi] != f[oi], nf[ui] != f[ui]), 'pending ledger += protocol fee on the ask asset only')
+        import c07 as C07
+        nice = [z3.Int('b%d' % i) == 10 ** 12 + (10 ** 9 if i == oi else 0) for i in range(3)] + [z3.Int('f%d' % i) == 10 ** 6 for i in range(3)] + \
+               [z3.Int('offer') == 10 ** 9, z3.Int('fee_protocol') == 10 ** 15, z3.Int('fee_swap') == 2 * 10 ** 15, z3.Int('fee_burn') == 10 ** 15, z3.Int('max_spread') == 5 * 10 ** 17, z3.Int('S') == 3 * 10 ** 12,
+                z3.Int('initial_amp') == 100, z3.Int('future_amp') == 100, z3.Int('initial_amp_block') == 1, z3.Int('future_amp_block') == 2, z3.Int('height') == 12345] + \
+               [z3.Int('%s%d' % (n_, i)) == 7 * 10 ** 6 for n_ in ('at', 'ab') for i in range(3)]
+        kw = dict(native_pred=C07.ledger_moves_inconsistent, nice=nice)
+        ck.oblige('C07.trio.swap.ledger.' + tag, p, z3.Or(nf[ai] != f[ai] + prot, nf[oi] != f[oi], nf[ui] != f[ui]), 'pending ledger += protocol fee on the ask asset only', **kw)
         ck.oblige('C07.trio.swap.alltime.' + tag, p, z3.Or(nat[ai] != at[ai] + prot, nat[oi] != at[oi], nat[ui] != at[ui], nab[ai] != ab[ai] + burn, nab[oi] != ab[oi], nab[ui] != ab[ui]),
-                  'all-time collected / burned counters grow by exactly the charge / burn, on the ask asset only')
+                  'all-time collected / burned counters grow by exactly the charge / burn, on the ask asset only', **kw)
         ck.oblige('C07.trio.swap.burn.' + tag, p, z3.Or(total(eff, 'burn', A) != burn, total(eff, 'send', A) != ret, any(not same(e.asset, A) or e.kind not in ('send', 'burn') for e in eff)),
-                  'one transfer of the net return, one burn of exactly the burn fee, both of the ask asset; nothing else moves')
+                  'one transfer of the net return, one burn of exactly the burn fee, both of the ask asset; nothing else moves', **kw)
     ck.require(n >= 1, 'trio %s: no Ok path' % tag)
 
 
